@@ -17,8 +17,8 @@ import (
 // ---- loads (C11/C12) -------------------------------------------------------------------------------
 
 func (s *kvSubj[K]) identityClasses() bool {
-	idK := !kvHasCmp(s.cfg.Kind) || s.d.CmpName == "nat" || s.d.CmpName == "rev"
-	idV := s.cfg.Kind != "treebidimap" || s.vd.CmpName == "nat" || s.vd.CmpName == "rev"
+	idK := !kvHasCmp(s.cfg.Kind) || s.d.CmpName == "nat" || s.d.CmpName == "rev" || s.d.CmpName == "natbig"
+	idV := s.cfg.Kind != "treebidimap" || s.vd.CmpName == "nat" || s.vd.CmpName == "rev" || s.vd.CmpName == "natbig"
 	return idK && idV
 }
 
